@@ -11,7 +11,7 @@ import ast
 import copy
 
 from ..cells import Cell, Model, final_atoms, ff_status, sidechain_formal, terminus_formal
-from ..core import AnalysisError, U, guards_of
+from ..core import AnalysisError, U, guards_of, try_fold, walk_no_defs
 from ..guards import Flow, Interp, Sym, Unknown
 from ..tables import AMINO, FFS, Tables
 
@@ -67,7 +67,8 @@ def run_cell(model, loop, R, pos, ff, side, group):
         if fl.kind != "continue":
             raise AnalysisError(f"apply_pka_values: unexpected {fl.kind} in the residue loop") from fl
     applied = res["patches"][len(before):]
-    warned = any(t[0] == "log" and t[1] in ("warning", "warn", "error", "critical") for t in it.trace)
+    from .shared import suppressed_by_filter
+    warned = any(t[0] == "log" and t[1] in ("warning", "warn", "error", "critical") and not suppressed_by_filter(model.prog, t[2]) for t in it.trace)
     consumed = any(t[0] == "del" for t in it.trace)
     lookup, atoms = finish_pipeline(model, res, R)
     return applied, warned, lookup, atoms, consumed, res
@@ -213,6 +214,35 @@ def check_value_flow(prog, rep, fi, loop):
     cmps = sorted({U(n) for n in ast.walk(loop) if isinstance(n, ast.Compare) and "ph" in [x.id for x in ast.walk(n) if isinstance(x, ast.Name)]})
     r5.add("comparisons", all(c in ("ph < value", "ph >= value", "ph <= value", "ph > value", "not ph < value", "not ph >= value") for c in cmps) and bool(cmps),
            f"pH/pKa comparisons: {cmps} (both operands bare)", w2)
+    # who may write the pH option: nobody after the command line is parsed (a store to an attribute `ph`, or setattr with that name)
+    writers = []
+    for key, f in prog.funcs.items():
+        if f.module.rel == "run.py":
+            continue
+        for n in walk_no_defs(f.node):
+            if isinstance(n, (ast.Assign, ast.AugAssign, ast.AnnAssign)):
+                tg = n.targets if isinstance(n, ast.Assign) else [n.target]
+                for t_ in tg:
+                    for x in ast.walk(t_):
+                        if isinstance(x, ast.Attribute) and x.attr == "ph" and isinstance(x.ctx, ast.Store) and U(x.value) != "self":
+                            writers.append(f"{key}: {U(n)[:60]}")
+            if isinstance(n, ast.Call) and U(n.func) == "setattr" and len(n.args) == 3 and U(n.args[0]) in ("args", "options", "namespace"):
+                nm = try_fold(n.args[1], prog.module_env(f.module.rel))
+                names = [nm] if isinstance(nm, str) else None
+                if names is None and isinstance(n.args[1], ast.Name):
+                    # setattr(args, option, ...) inside `for option, ... in TABLE.items()`: the names are the table's keys
+                    for lp in ast.walk(f.node):
+                        if isinstance(lp, ast.For) and n in list(ast.walk(lp)) and n.args[1].id in {x.id for x in ast.walk(lp.target) if isinstance(x, ast.Name)}:
+                            tbl = try_fold(lp.iter.func.value if isinstance(lp.iter, ast.Call) and isinstance(lp.iter.func, ast.Attribute) else lp.iter,
+                                           prog.module_env(f.module.rel))
+                            if isinstance(tbl, (dict, list, tuple, set)):
+                                names = [k_ for k_ in tbl if isinstance(k_, str)]
+                if names is None:
+                    writers.append(f"{key}: {U(n)[:60]} (attribute name not determined)")
+                elif "ph" in names:
+                    writers.append(f"{key}: {U(n)[:60]}")
+    r5.add("ph-option-unmodified", not writers, f"stores to the pH option after parsing: {writers or 'none'} (the comparison must see the pH the user gave)",
+           "pdb2pqr/main.py")
     run = prog.func("main.py", "run_propka").node
     rows = [U(s.value) for s in ast.walk(run) if isinstance(s, ast.Assign) and U(s.targets[0]) == "row_dict['pKa']"]
     r5.add("propka-row", rows == ["group.pka_value"], f"row['pKa'] <- {rows}", f"pdb2pqr/main.py:{run.lineno} (run_propka)")
